@@ -491,8 +491,22 @@ fn t_select_cross(r: &mut Rng) -> Program {
     }
 }
 
+/// T11: a tail call inside a tuple field: every iteration abandons the fields built so far on the
+/// operand stack (here: a fresh heap binary each time); they stay rooted until the process ends.
+fn t_tail_in_tuple(r: &mut Rng) -> Program {
+    let n = 2 + r.usize(30);
+    let a = lit(r);
+    let b = lit(r);
+    let src = format!(
+        "g = #'int {{ | =0 => 0 | [[{}, {}] __binary_concat__, [~, 1] __integer_subtract__ ^] }}, p = @{{ {n} g }}, !p",
+        hexlit(&a), hexlit(&b)
+    );
+    Program { family: "tail-in-tuple", lines: vec![src, "q = @{ 5 }, !q".to_string()], expected: vec![Some("i0".into()), Some("i5".into())], confluent: true }
+}
+
 pub fn generate(r: &mut Rng) -> Program {
-    match r.below(28) {
+    match r.below(29) {
+        28 => t_tail_in_tuple(r),
         24..=27 => t_select_cross(r),
         0..=2 => t_local(r),
         3..=6 => t_worker_local(r),
